@@ -7176,9 +7176,11 @@ impl<'a> Tyck<'a> for TyEnvT<su::TermId> {
                 let mut matchers = Vec::new();
                 let mut arms_ty = Vec::new();
                 for su::Matcher { binder, tail } in arms {
-                    let binder_elaboration = self
-                        .mk(binder)
-                        .tyck_k(tycker, PatternAction::ana(scrut_ty_unroll.into()))?;
+                    // Arm patterns are analysed against the scrutinee's own type: structural
+                    // patterns reveal a sealed definition themselves, while a variable or
+                    // wildcard arm must keep the nominal identity of the scrutinee.
+                    let binder_elaboration =
+                        self.mk(binder).tyck_k(tycker, PatternAction::ana(scrut_ty.into()))?;
                     let (binder, _ty) = binder_elaboration.try_as_value(
                         tycker,
                         TyckError::SortMismatch,
